@@ -33,9 +33,9 @@ func (c *Conn) VerifState() string {
 	pipe := c.bdatPipe != nil
 	c.locker.Unlock()
 	_, isTLS := c.TLSConnectionState()
-	return fmt.Sprintf("helo=%t sess=%t err=%d from=%t rcpts=%d pipe=%t bdatStatus=%t bytes=%d binmime=%t auth=%t tls=%t linelimit=%d",
+	return fmt.Sprintf("helo=%t sess=%t err=%d from=%t rcpts=%d pipe=%t bdatStatus=%t bytes=%d binmime=%t auth=%t tls=%t linelimit=%d curline=%d pendingresult=%d",
 		c.helo != "", sess, c.errCount, c.fromReceived, len(c.recipients), pipe, c.bdatStatus != nil,
-		c.bytesReceived, c.binarymime, c.didAuth, isTLS, c.lineLimitReader.LineLimit)
+		c.bytesReceived, c.binarymime, c.didAuth, isTLS, c.lineLimitReader.LineLimit, c.lineLimitReader.curLineLength, len(c.dataResult))
 }
 
 // VerifNewDataReader returns the DATA reader used by the server, reading from r
